@@ -1,7 +1,7 @@
 (* C13 -- every message serialises: valid JSON, framed protobuf, agreeing values.
-   Statements only; proofs in Proofs/FormatP.v. *)
-From Coq Require Import List NArith Bool.
-From GF Require Import Base.Res Base.Bytes Model.Msg Model.Pb Model.Json Spec.JsonGrammar Proofs.FormatP.
+   Statements only; proofs in Proofs/FormatP.v, Proofs/RenderP.v. *)
+From Coq Require Import String List NArith Bool.
+From GF Require Import Base.Res Base.Bytes Model.Msg Model.Pb Model.Json Model.Render Spec.JsonGrammar Proofs.FormatP Proofs.RenderP.
 Import ListNotations.
 Open Scope N_scope.
 
@@ -31,6 +31,38 @@ Theorem c13_json_object : forall ms,
   Forall (fun kv => json_chars (fst kv) /\ jval_ok (snd kv)) ms -> json_value (format_object ms).
 Proof. exact format_object_value. Qed.
 Print Assumptions c13_json_object.
+
+(* THE DEFAULT JSON FORM OF EVERY MESSAGE IS ONE WELL-FORMED JSON OBJECT: for ANY message (any column values,
+   addresses of any length, any repeated fields), the bytes MarshalJSON writes under the default configuration
+   (Model/Render.v: every column in struct order through its default renderer -- addresses in net/netip text
+   form, MACs, ethertype / protocol / enum names from the tables regenerated from the source, prefixes, decimal
+   numbers, arrays) are an RFC 8259 object.  The model's bytes are compared with the implementation's byte for
+   byte on every run. *)
+Theorem c13_json_default_valid : forall m, json_value (json_default m).
+Proof. exact json_default_valid. Qed.
+Print Assumptions c13_json_default_valid.
+
+(* a number written in JSON or text denotes the column's value: reading the decimal digits back gives it *)
+Theorem c13_numbers_denote : forall n, parse_dec (show_dec n) = n /\ json_number (show_dec n).
+Proof. intros n. split; [apply show_dec_value|apply show_dec_number]. Qed.
+Print Assumptions c13_numbers_denote.
+
+(* every rendered address, MAC, prefix and name is plain ASCII (nothing for the JSON writer to escape or reject) *)
+Theorem c13_rendered_ascii : forall b n a bits k,
+  ascii7 (render_ip b) /\ ascii7 (mac_string n) /\ ascii7 (render_prefix a bits) /\ ascii7 (proto_name k) /\ ascii7 (etype_name k).
+Proof. intros. repeat split; [apply render_ip_ascii|apply mac_ascii|apply render_prefix_ascii|apply proto_name_ascii|apply etype_name_ascii]. Qed.
+Print Assumptions c13_rendered_ascii.
+
+Example c13_render_examples :
+  render_ip [32;1;13;184;0;0;0;0;0;0;0;0;0;0;0;1] = bytes_of_string "2001:db8::1"%string /\
+  render_ip [32;1;0;0;0;0;0;1;0;0;0;0;0;0;0;1] = bytes_of_string "2001:0:0:1::1"%string /\
+  render_ip [0;0;0;0;0;0;0;0;0;0;255;255;10;0;0;1] = bytes_of_string "::ffff:10.0.0.1"%string /\
+  render_ip [1;2;3] = [] /\
+  mac_string 450971566188 = bytes_of_string "00:69:00:00:00:6c"%string /\
+  render_prefix [10;1;2;3] 12 = bytes_of_string "10.0.0.0/12"%string /\
+  render_prefix [10;1;2;3] 33 = bytes_of_string "invalid Prefix"%string /\
+  proto_name 6 = bytes_of_string "TCP"%string /\ proto_name 200 = bytes_of_string "unassigned"%string.
+Proof. vm_compute. repeat split. Qed.
 
 Example c13_nonvacuous :
   dec_varint (enc_varint 300 ++ [7]) = Some (300, [7]) /\
